@@ -14,7 +14,7 @@ import (
 // the log plan) one of two callers whose filters match different logs of the
 // same transaction. Any node call may fail (symbolic). maxreads is the
 // configured reuse bound.
-//   kind 0: headers+logs   1: blocks+traces   2: blocks+receipts   3: headers only
+//   kind 0: headers+logs   1: blocks+traces   2: blocks+receipts   3: headers only   4: headers-only and full-block callers mixed
 func ZZ_C08_Seq(kind, n, maxreads, failures int) {
 	node := ZZHonest(100, 1)
 	node.TwoLogs = true
@@ -31,11 +31,14 @@ func ZZ_C08_Seq(kind, n, maxreads, failures int) {
 	case 2:
 		f[0] = &glf.Filter{UseBlocks: true, UseReceipts: true}
 		f[1] = f[0]
+	case 4: // different data plans on the same range: headers only vs full blocks
+		f[0] = &glf.Filter{UseHeaders: true}
+		f[1] = &glf.Filter{UseBlocks: true}
 	default:
 		f[0] = &glf.Filter{UseHeaders: true}
 		f[1] = f[0]
 	}
-	var sinceFetch [2]int
+	var sinceFetch [4]int // per (cache, range): kind 4 uses the header cache and the block cache
 	bound := maxreads
 	if bound < 1 {
 		bound = 1
@@ -43,10 +46,13 @@ func ZZ_C08_Seq(kind, n, maxreads, failures int) {
 	for i := 0; i < n; i++ {
 		key := zzvrf.Pick("range", 2)
 		who := 0
-		if kind == 0 {
+		if kind == 0 || kind == 4 {
 			who = zzvrf.Pick("caller", 2)
 		}
 		start := uint64(100 + key)
+		if kind == 4 {
+			key += 2 * who
+		}
 		zzStart, zzLimit, zzTraceCall, zzCurFilter = start, 1, 0, who
 		fetchesBefore, failsBefore := zzBlockFetches, zzFailures
 		blocks, err := c.Get(context.Background(), "http://node", f[who], start, 1)
@@ -117,6 +123,15 @@ func ZZ_C08_Seq(kind, n, maxreads, failures int) {
 			zzvrf.Assert(len(b.Txs) == 1, "T1-one-transaction")
 			if len(b.Txs) == 1 {
 				zzvrf.Assert(uint64(b.Txs[0].GasUsed) == node.TxGasUsed && len(b.Txs[0].Logs) == 1, "T1-receipt-as-uncached")
+			}
+		case 4:
+			if who == 1 {
+				zzvrf.Assert(len(b.Txs) == 1, "T1-transactions-as-uncached")
+				if len(b.Txs) == 1 {
+					zzvrf.Assert(zzvrf.BytesEq(b.Txs[0].PrecompHash, node.TxHash) && uint64(b.Txs[0].Nonce) == node.TxNonce, "T1-transaction-content")
+				}
+			} else {
+				zzvrf.Assert(len(b.Txs) == 0, "T1-header-plan-has-no-transactions")
 			}
 		}
 		zzvrf.Assert(len(c.bcache.segments) <= 5 && len(c.hcache.segments) <= 5, "T5-cache-size-bounded")
